@@ -172,6 +172,11 @@ func (in *Interp) choose(conds []*Term) int {
 				d.alts = append(d.alts, i)
 				continue
 			}
+			if len(conds) == 2 && i == 1 && len(d.alts) == 0 && conds[1] == Not(conds[0]) {
+				// pc is satisfiable and pc ∧ c0 is not, hence pc ∧ ¬c0 is
+				d.alts = append(d.alts, i)
+				continue
+			}
 			r := in.sol.Check(in.pc, c)
 			if r == "unknown" {
 				in.note("feasibility query unknown (branch kept)")
@@ -250,6 +255,8 @@ func (in *Interp) assertHolds(c *Term, id string) {
 		return
 	}
 	in.res.Obligations++
+	in.sol.ctx = "assert " + id
+	defer func() { in.sol.ctx = "" }()
 	if c.IsTrue() {
 		in.res.Discharged++
 		in.res.Asserts[id]++
@@ -810,10 +817,16 @@ func copyVal(v Value) Value {
 	return v
 }
 
+var litCache = map[string]*ArrNode{}
+
 func litStr(s string) *StrV {
-	n := zeroArr(8)
-	for i := 0; i < len(s); i++ {
-		n = n.Store(BV(64, int64(i)), BV(8, int64(s[i])))
+	n, ok := litCache[s]
+	if !ok {
+		n = zeroArr(8)
+		for i := 0; i < len(s); i++ {
+			n = n.Store(BV(64, int64(i)), BV(8, int64(s[i])))
+		}
+		litCache[s] = n
 	}
 	return &StrV{node: n, off: BV(64, 0), len: BV(64, int64(len(s)))}
 }
